@@ -392,14 +392,61 @@ func runC06R3(c *eng.Ctx, r *eng.RuleCtx) {
 
 // enclosingBlockOf returns the innermost block statement containing pos.
 func enclosingBlockOf(body *ast.BlockStmt, pos token.Pos) ast.Node {
-	var best ast.Node = body
+	// the chain of nodes that contain pos, outermost first
+	var chain []ast.Node
 	ast.Inspect(body, func(n ast.Node) bool {
-		if b, ok := n.(*ast.BlockStmt); ok && b.Pos() <= pos && pos < b.End() {
-			best = b
+		if n == nil || !(n.Pos() <= pos && pos < n.End()) {
+			return false
 		}
+		chain = append(chain, n)
 		return true
 	})
-	return best
+	i := -1
+	for k, n := range chain {
+		if _, ok := n.(*ast.BlockStmt); ok {
+			i = k
+		}
+	}
+	if i < 0 {
+		return body
+	}
+	// a bare block (a statement of another block) and the wrapper the normaliser puts around an inlined body
+	// (`L: switch { default: { ... } }`) are transparent: the statements belong to the surrounding block
+	for i > 0 {
+		if _, ok := chain[i-1].(*ast.BlockStmt); ok {
+			i--
+			continue
+		}
+		if cc, ok := chain[i-1].(*ast.CaseClause); ok && cc.List == nil && i >= 4 {
+			sb, ok1 := chain[i-2].(*ast.BlockStmt)
+			sw, ok2 := chain[i-3].(*ast.SwitchStmt)
+			if ok1 && ok2 && len(sb.List) == 1 && sw.Tag == nil && sw.Init == nil {
+				j := i - 4
+				if _, isL := chain[j].(*ast.LabeledStmt); isL && j > 0 {
+					j--
+				}
+				if _, isB := chain[j].(*ast.BlockStmt); isB {
+					i = j
+					continue
+				}
+			}
+		}
+		// a bare block that is a statement of a case / comm clause: the clause body is the surrounding block
+		if i >= 1 {
+			switch chain[i-1].(type) {
+			case *ast.CaseClause, *ast.CommClause:
+				if i >= 2 {
+					if _, isB := chain[i].(*ast.BlockStmt); isB {
+						if _, swBody := chain[i-2].(*ast.BlockStmt); swBody && i-1 > 0 {
+							return chain[i-1]
+						}
+					}
+				}
+			}
+		}
+		break
+	}
+	return chain[i]
 }
 
 func runC06R5(c *eng.Ctx, r *eng.RuleCtx) {
